@@ -166,6 +166,13 @@ func newTransactionGroupMonitor(w) (r)
   trusted
   pure
 
+// the name of the NNS domain that carries the signature of committee member i: a function of i (fmt.Sprintf, only named here)
+ufun sigDomain(i Int) Bytes
+func designateNotarySignatureDomainForMember(memberIndex) (r)
+  trusted
+  pure
+  ensures r == sigDomain(memberIndex)
+
 func (x transactionGroupMonitor) isPending() (r)
   trusted
   pure
@@ -180,6 +187,8 @@ func (x transactionGroupMonitor) trackPendingTransactionsAsync(ctx, vub, txs)
   pure
   logged
 
+pure lookupErr(k Int) Any = cres2("lookupNNSDomainRecord", k)
+
 // C13 (Notary bootstrap, one tick of a non-leading member; tx - the designation transaction kept between ticks - is an
 // arbitrary value on entry): whatever the member signs in this tick is a transaction carrying exactly the shared
 // parameters read from the NNS in this tick, and the signature is framed with the checksum of these same parameters - so
@@ -192,12 +201,18 @@ func initDesignateNotaryRoleAsSignerTick(ctx, prm)
           xcalls("wallet.Account.SignHashable")[old(xcalls("wallet.Account.SignHashable")).len] == ev_wallet_Account_SignHashable(n, t)
           && xcalls("sharedTransactionData.unshiftChecksum")[old(xcalls("sharedTransactionData.unshiftChecksum")).len] == ev_sharedTransactionData_unshiftChecksum(x, d)
           && t.Nonce == x.nonce && t.ValidUntilBlock == x.validUntilBlock && len(t.Signers) > 0 && t.Signers[0].Account == x.sender
+  // at most one NNS transaction per tick; a record of the member's own signature domain that exists (the second lookup
+  // of the tick succeeded) is replaced through setRecord at index 0, never doubled through addRecord
+  ensures [C13] xcalls("actor.Actor.SendCall").len <= old(xcalls("actor.Actor.SendCall")).len + 1
+  ensures [C13] xcalls("lookupNNSDomainRecord").len == old(xcalls("lookupNNSDomainRecord")).len + 2 && isnil(lookupErr(old(xcalls("lookupNNSDomainRecord")).len + 1))
+        && xcalls("actor.Actor.SendCall").len == old(xcalls("actor.Actor.SendCall")).len + 1 ==>
+        exists r Bytes :: xcalls("actor.Actor.SendCall")[old(xcalls("actor.Actor.SendCall")).len]
+          == ev_actor_Actor_SendCall(prm.nnsOnChainAddress, "setRecord", sigDomain(prm.localAccCommitteeIndex), 16, 0, r)
 
 // C13 (Notary bootstrap, one tick of the leading member; the variables kept between ticks are arbitrary on entry): the
 // leader sends at most one NNS transaction per tick, and which one is determined by what the lookup of the shared-data
 // record returned in this tick: when the record exists (the lookup succeeded) new shared data replace it through setRecord
 // at index 0 of the TXT records of the shared-data domain - never addRecord, which would leave the expired data in front.
-pure lookupErr(k Int) Any = cres2("lookupNNSDomainRecord", k)
 pure lastHeight(n Int) Int = asint(cres("blockchainMonitor.currentHeight", n - 1))
 
 func initDesignateNotaryRoleAsLeaderTick(ctx, prm)
